@@ -388,8 +388,9 @@ theorem keeps_cycle (env : Env) (pre mid post : Method) : Keeps (CoreOk env.cfg)
 
 theorem keeps_query (env : Env) : Keeps (CoreOk env.cfg) (query env) := by
   unfold query
-  intro s
-  exact Keeps.seq (keeps_deliver env _ _ _ _) (keeps_deliver env _ _ _ _) s
+  generalize headFirst Method.query = hfq
+  cases hfq <;> simp only [if_true, if_false, Bool.false_eq_true] <;>
+  exact fun s => Keeps.seq (keeps_deliver env _ _ _ _) (keeps_deliver env _ _ _ _) s
 
 theorem keeps_extChange (env : Env) (d : Nat) (hd : d < env.cfg.n) (p : Option Nat) : Keeps (CoreOk env.cfg) (extChange env d p) :=
   fun _ h => ⟨h.active, h.requested, Or.inl hd, h.plan, h.planLen⟩
